@@ -19,3 +19,5 @@ import RenetVerif.Props.SrcTieTokenTable
 import RenetVerif.Props.SrcTieNcSerialize
 import RenetVerif.Props.SrcTieNcToken
 import RenetVerif.Props.SrcTieNcSequence
+import RenetVerif.Props.SrcTieSendUnrel
+import RenetVerif.Props.SrcTieRecvUnrel
